@@ -10,6 +10,7 @@ import (
 	"io"
 	"os"
 	"os/exec"
+	"reflect"
 	"runtime/debug"
 	"sort"
 	"strings"
@@ -85,6 +86,23 @@ type executor struct {
 	taskCtx  []*callCtx
 	results  [][]callResult
 	checkState bool // per-call weight/proto/caller-tensor checks (serial engines)
+	copies     map[[2]int]*gonnx.Model
+}
+
+// modelCopy returns task ti's own by-value copy of shared model mi (made on first use).
+func (x *executor) modelCopy(ti, mi int) *gonnx.Model {
+	if x.copies == nil {
+		x.copies = map[[2]int]*gonnx.Model{}
+	}
+	k := [2]int{ti, mi}
+	if c, ok := x.copies[k]; ok {
+		return c
+	}
+	cp := reflect.New(reflect.TypeOf(*x.models[mi].m))
+	cp.Elem().Set(reflect.ValueOf(*x.models[mi].m)) // same as `c := *m`, without tripping vet's copylocks on future trees
+	c := cp.Interface().(*gonnx.Model)
+	x.copies[k] = c
+	return c
 }
 
 func (x *executor) cur() *callCtx {
@@ -479,7 +497,11 @@ func (x *executor) doCall(ti, ci int, ctx *callCtx) {
 		}
 		x.sch.inRun[ti] = call.Model + 1
 	}
-	res.Kind, res.Err = guardRun(func() (err error) { out, err = lm.m.Run(in); return })
+	runOn := lm.m
+	if x.c.World.CopyModels {
+		runOn = x.modelCopy(ti, call.Model)
+	}
+	res.Kind, res.Err = guardRun(func() (err error) { out, err = runOn.Run(in); return })
 	if x.sch != nil {
 		x.sch.inRun[ti] = 0
 		x.sch.curNodeOp[ti] = ""
